@@ -4,7 +4,10 @@ from lib import run_replay
 
 
 def _runs(f, seeds=(1, 2, 3)):
-    return [run_replay(f.cfg, s) for s in seeds]
+    cfg = f.detail.get('replay_cfg', f.cfg)
+    if f.detail.get('replay_seeds'):
+        seeds = seeds[:f.detail['replay_seeds']]
+    return [run_replay(cfg, s) for s in seeds]
 
 
 def honest_rejected(f):
@@ -148,11 +151,108 @@ def results_len_wrong(f):
     for o in outs:
         if 'crash' in o:
             return None, o
-        k = len(f.cfg.get('verify_order') or f.cfg['members'])
+        cfg = f.detail.get('replay_cfg', f.cfg)
+        k = len(cfg.get('verify_order') or cfg['members'])
         for v in o.get('verify') or []:
             if v['result'] == 'ok' and v.get('n_results') != k:
                 return True, {'n_results': v.get('n_results'), 'batch': k}
     return False, None
+
+
+def tampered_accepted_offsetting(f):
+    """C08/C03: a batch of individually invalid proofs whose defects are equal and opposite is accepted.
+    Built from the finding's configuration: k honest members, +delta / -delta on the same d1 coordinate of two of them."""
+    c = f.cfg
+    n, x = c['n'], c.get('x', 1)
+    ms = [(mm.get('m', 1), mm.get('cap', mm.get('m', 1))) for mm in c['members']]
+    if len(ms) < 2:
+        ms = ms + ms
+    found = []
+    for coord in range(x):
+        members = []
+        for t, (m, cap) in enumerate(ms):
+            mc = {'m': m, 'cap': cap}
+            if t == 0:
+                mc['tamper'] = {'op': 'scalar_add_delta', 'elem': coord, 'shared': True, 'name': 'c'}
+            if t == len(ms) - 1:
+                mc['tamper'] = {'op': 'scalar_add_delta', 'elem': coord, 'shared': True, 'name': 'c', 'neg': True}
+            members.append(mc)
+        for seed in (1, 2):
+            o = run_replay({'scenario': 'batch', 'n': n, 'x': x, 'members': members, 'actions': ['VerifyOnly']}, seed)
+            if 'crash' in o:
+                return None, o
+            for v in o.get('verify') or []:
+                if v['result'] == 'ok' and v.get('reference') and not all(r is True for r in v['reference']):
+                    found.append({'members': members, 'library': 'ok', 'reference_per_member': v['reference']})
+        if found:
+            break
+    return (len(found) > 0), found[:1]
+
+
+def probe_unchanged(f):
+    """C04/C08: some datum is not bound by the transcript: two verifications that differ in that datum leave the caller's
+    transcript in the same state (observed by squeezing bytes from it after verify_batch on the real crates).
+    detail: n, x, m, cap, elems (proof element indices of the group)"""
+    d = f.detail
+    n, x, m, cap = d['n'], d['x'], d.get('m', 1), d.get('cap', d.get('m', 1))
+    elems = d['elems']
+    scal = lambda e: e < x or e in (x + 3, x + 4)
+    variants = []
+    for e in elems:
+        variants.append([{'op': 'scalar_add_delta', 'elem': e, 'shared': True, 'name': 'q'}] if scal(e) else
+                        [{'op': 'point_add_delta_basis', 'elem': e, 'basis': {'b': 'h'}}])
+    sc = [e for e in elems if scal(e)]
+    for i in range(len(sc)):
+        for j in range(i + 1, len(sc)):
+            variants.append([{'op': 'scalar_add_delta', 'elem': sc[i], 'shared': True, 'name': 'q'},
+                             {'op': 'scalar_add_delta', 'elem': sc[j], 'shared': True, 'name': 'q', 'neg': True}])
+    def probe(t):
+        mc = {'m': m, 'cap': cap}
+        if t is not None:
+            mc['tamper'] = t
+        o = run_replay({'scenario': 'batch', 'n': n, 'x': x, 'members': [mc], 'actions': ['VerifyOnly']}, 1)
+        if 'crash' in o or not o.get('verify'):
+            return None
+        return o['verify'][0]['logs_after'][0]
+    base = probe(None)
+    if base is None:
+        return None, 'baseline replay failed'
+    for t in variants:
+        p = probe(t)
+        if p is not None and p == base:
+            return True, {'tamper': t, 'transcript_probe': p, 'baseline_probe': base}
+    return False, {'variants': len(variants)}
+
+
+def relation_disagrees(f):
+    """C02: the library's verdict differs from the independent unoptimised evaluation of the relation
+    (replay crate, refimpl.rs) on an honest proof or on a perturbed proof of the same configuration"""
+    c = f.cfg
+    n, x = c['n'], c.get('x', 1)
+    m0 = c['members'][0]
+    m, cap = m0.get('m', 1), m0.get('cap', m0.get('m', 1))
+    maxv = (1 << n) - 1
+    base = {'m': m, 'cap': cap, 'promises': [('3' if (j % 2 == 0 and maxv >= 3) else None) for j in range(m)]}
+    variants = [dict(base)]
+    rounds = (n * m).bit_length() - 1
+    for e in range(0, x + 5 + 2 * rounds, max(1, (x + 5 + 2 * rounds) // 6)):
+        is_scalar = e < x or e in (x + 3, x + 4)
+        t = {'op': 'scalar_add_delta', 'elem': e} if is_scalar else {'op': 'point_add_delta_basis', 'elem': e, 'basis': {'b': 'h'}}
+        variants.append(dict(base, tamper=t))
+    found = []
+    for seed in (1, 2):
+        for v in variants:
+            o = run_replay({'scenario': 'batch', 'n': n, 'x': x, 'members': [v], 'actions': ['VerifyOnly', 'RecoverAndVerify']}, seed)
+            if 'crash' in o:
+                return None, o
+            for vr in o.get('verify') or []:
+                lib_ok = vr['result'] == 'ok'
+                ref = vr.get('reference', [None])[0]
+                if ref in (True, False) and lib_ok != ref:
+                    found.append({'member': v, 'action': vr['action'], 'library': vr['result'], 'reference_relation_holds': ref})
+        if found:
+            break
+    return (len(found) > 0), found[:2]
 
 
 PREDS = {k: v for k, v in globals().items() if callable(v) and not k.startswith('_') and k != 'run_replay'}
